@@ -215,6 +215,192 @@ theorem shape_groupsigValueUses : Shape.groupsigValueUses = [
   "VerifySig: arg.value.IsNil()"
 ] := rfl
 
+/-- bn_curve.go: BnInt.getHexString is what `Model/Bls14Verify.lean` / `Bls14G1.lean` transcribes. -/
+theorem shape_bnIntGetHexString : Shape.bnIntGetHexString = [
+  "return PREFIX + $r.v.Text(16)"
+] := rfl
+
+/-- bn_curve.go: BnInt.setHexString is what `Model/Bls14Verify.lean` / `Bls14G1.lean` transcribes. -/
+theorem shape_bnIntSetHexString : Shape.bnIntSetHexString = [
+  "guard[len($0) < len(PREFIX) || $0[:len(PREFIX)] != PREFIX] -> return fmt.Errorf(\"arg failed\")",
+  "do $r.v.SetString($0[len(PREFIX):][:], 16)",
+  "return nil"
+] := rfl
+
+/-- sig.go: Signature.GetHexString is what `Model/Bls14Verify.lean` / `Bls14G1.lean` transcribes. -/
+theorem shape_sigGetHexString : Shape.sigGetHexString = [
+  "return PREFIX + common.Bytes2Hex($r.value.Marshal())"
+] := rfl
+
+/-- sig.go: Signature.SetHexString is what `Model/Bls14Verify.lean` / `Bls14G1.lean` transcribes. -/
+theorem shape_sigSetHexString : Shape.sigSetHexString = [
+  "guard[len($0) < len(PREFIX) || $0[:len(PREFIX)] != PREFIX] -> return fmt.Errorf(\"arg failed\")",
+  "unrecognised-if: if sig.value.IsNil() { sig.value = bn_curve.G1{} }",
+  "do $r.value.Unmarshal(common.Hex2Bytes($0[len(PREFIX):]))",
+  "return nil"
+] := rfl
+
+/-- pubkey.go: Pubkey.GetHexString is what `Model/Bls14Verify.lean` / `Bls14G1.lean` transcribes. -/
+theorem shape_pubGetHexString : Shape.pubGetHexString = [
+  "return PREFIX + common.Bytes2Hex($r.value.Marshal())"
+] := rfl
+
+/-- pubkey.go: Pubkey.SetHexString is what `Model/Bls14Verify.lean` / `Bls14G1.lean` transcribes. -/
+theorem shape_pubSetHexString : Shape.pubSetHexString = [
+  "guard[len($0) < len(PREFIX) || $0[:len(PREFIX)] != PREFIX] -> return fmt.Errorf(\"arg failed\")",
+  "do $r.value.Unmarshal(common.Hex2Bytes($0[len(PREFIX):]))",
+  "return nil"
+] := rfl
+
+/-- pubkey.go: Pubkey.UnmarshalJSON is what `Model/Bls14Verify.lean` / `Bls14G1.lean` transcribes. -/
+theorem shape_pubUnmarshalJSON : Shape.pubUnmarshalJSON = [
+  "guard[len(string($0[:])) < 2] -> return fmt.Errorf(\"data size less than min.\")",
+  "do string($0[:]) = string($0[:])[1:len(string($0[:])) - 1]",
+  "return $r.SetHexString(string($0[:]))"
+] := rfl
+
+/-- id.go: ID.GetHexString is what `Model/Bls14Verify.lean` / `Bls14G1.lean` transcribes. -/
+theorem shape_idGetHexString : Shape.idGetHexString = [
+  "return common.ToHex($r.Serialize())"
+] := rfl
+
+/-- id.go: ID.SetHexString is what `Model/Bls14Verify.lean` / `Bls14G1.lean` transcribes. -/
+theorem shape_idSetHexString : Shape.idSetHexString = [
+  "return $r.value.setHexString($0)"
+] := rfl
+
+/-- id.go: ID.UnmarshalJSON is what `Model/Bls14Verify.lean` / `Bls14G1.lean` transcribes. -/
+theorem shape_idUnmarshalJSON : Shape.idUnmarshalJSON = [
+  "guard[len(string($0[:])) < 2] -> return fmt.Errorf(\"data size less than min.\")",
+  "do string($0[:]) = string($0[:])[1:len(string($0[:])) - 1]",
+  "return $r.SetHexString(string($0[:]))"
+] := rfl
+
+/-- common/bytes.go: Hex2Bytes is what `Model/Bls14Verify.lean` / `Bls14G1.lean` transcribes. -/
+theorem shape_commonHex2Bytes : Shape.commonHex2Bytes = [
+  "do h, _ := hex.DecodeString($0)",
+  "return h"
+] := rfl
+
+/-- common/bytes.go: Bytes2Hex is what `Model/Bls14Verify.lean` / `Bls14G1.lean` transcribes. -/
+theorem shape_commonBytes2Hex : Shape.commonBytes2Hex = [
+  "return hex.EncodeToString($0)"
+] := rfl
+
+/-- common/bytes.go: ToHex is what `Model/Bls14Verify.lean` / `Bls14G1.lean` transcribes. -/
+theorem shape_commonToHex : Shape.commonToHex = [
+  "unrecognised-if: if len(hex) == 0 { hex = \"0\" }",
+  "return \"0x\" + Bytes2Hex($0)"
+] := rfl
+
+/-- sig.go: Signature.IsEqual is what `Model/Bls14Verify.lean` / `Bls14G1.lean` transcribes. -/
+theorem shape_sigIsEqual : Shape.sigIsEqual = [
+  "return bytes.Equal($r.value.Marshal(), $0.value.Marshal())"
+] := rfl
+
+/-- pubkey.go: Pubkey.IsEqual is what `Model/Bls14Verify.lean` / `Bls14G1.lean` transcribes. -/
+theorem shape_pubIsEqual : Shape.pubIsEqual = [
+  "return bytes.Equal($r.value.Marshal(), $0.value.Marshal())"
+] := rfl
+
+/-- pubkey.go: Pubkey.GetAddress is what `Model/Bls14Verify.lean` / `Bls14G1.lean` transcribes. -/
+theorem shape_pubGetAddress : Shape.pubGetAddress = [
+  "return common.BytesToAddress(sha3.Sum256($r.Serialize())[:])"
+] := rfl
+
+/-- pubkey.go: AggregatePubkeys is what `Model/Bls14Verify.lean` / `Bls14G1.lean` transcribes. -/
+theorem shape_aggregatePubkeys : Shape.aggregatePubkeys = [
+  "unrecognised-if: if len(pubs) == 0 { log.Printf(\"AggregatePubkeys no pubs\") return nil }",
+  "do new(Pubkey).value.Set(&$0[0].value)",
+  "stmt *ast.ForStmt: for i := 1; i < len(pubs); i++ { pub.add(&pubs[i]) }",
+  "return new(Pubkey)"
+] := rfl
+
+/-- pubkey.go: GeneratePubkey is what `Model/Bls14Verify.lean` / `Bls14G1.lean` transcribes. -/
+theorem shape_generatePubkey : Shape.generatePubkey = [
+  "do new(Pubkey).value.ScalarBaseMult($0.value.getBigInt())",
+  "return new(Pubkey)"
+] := rfl
+
+/-- seckey.go: Seckey.IsValid is what `Model/Bls14Verify.lean` / `Bls14G1.lean` transcribes. -/
+theorem shape_seckeyIsValid : Shape.seckeyIsValid = [
+  "return $r.GetBigInt().Cmp(big.NewInt(0)) != 0"
+] := rfl
+
+/-- seckey.go: Seckey.IsEqual is what `Model/Bls14Verify.lean` / `Bls14G1.lean` transcribes. -/
+theorem shape_seckeyIsEqual : Shape.seckeyIsEqual = [
+  "return $r.value.isEqual(&$0.value)"
+] := rfl
+
+/-- seckey.go: AggregateSeckeys is what `Model/Bls14Verify.lean` / `Bls14G1.lean` transcribes. -/
+theorem shape_aggregateSeckeys : Shape.aggregateSeckeys = [
+  "unrecognised-if: if len(secs) == 0 { log.Printf(\"AggregateSeckeys no secs\") return nil }",
+  "do new(Seckey).value.setBigInt($0[0].value.getBigInt())",
+  "stmt *ast.ForStmt: for i := 1; i < len(secs); i++ { sec.value.add(&secs[i].value) }",
+  "do new(big.Int).Set(new(Seckey).value.getBigInt())",
+  "do new(Seckey).value.setBigInt(new(big.Int).Mod(new(big.Int), curveOrder))",
+  "return new(Seckey)"
+] := rfl
+
+/-- seckey.go: newSeckeyFromByte is what `Model/Bls14Verify.lean` / `Bls14G1.lean` transcribes. -/
+theorem shape_newSeckeyFromByte : Shape.newSeckeyFromByte = [
+  "unrecognised-if: if err != nil { log.Printf(\"NewSeckeyFromByte %s\\n\", err) return nil }",
+  "do new(Seckey).value.mod()",
+  "return new(Seckey)"
+] := rfl
+
+/-- seckey.go: NewSeckeyFromRand is what `Model/Bls14Verify.lean` / `Bls14G1.lean` transcribes. -/
+theorem shape_newSeckeyFromRand : Shape.newSeckeyFromRand = [
+  "return newSeckeyFromByte($0.Bytes())"
+] := rfl
+
+/-- seckey.go: NewSeckeyFromBigInt is what `Model/Bls14Verify.lean` / `Bls14G1.lean` transcribes. -/
+theorem shape_newSeckeyFromBigInt : Shape.newSeckeyFromBigInt = [
+  "do &big.Int{}.Set($0)",
+  "do $0.Mod(&big.Int{}, curveOrder)",
+  "do new(Seckey).value.setBigInt($0)",
+  "return new(Seckey)"
+] := rfl
+
+/-- id.go: ID.IsValid is what `Model/Bls14Verify.lean` / `Bls14G1.lean` transcribes. -/
+theorem shape_idIsValid : Shape.idIsValid = [
+  "return $r.GetBigInt().Cmp(big.NewInt(0)) != 0"
+] := rfl
+
+/-- id.go: ID.ToAddress is what `Model/Bls14Verify.lean` / `Bls14G1.lean` transcribes. -/
+theorem shape_idToAddress : Shape.idToAddress = [
+  "return common.BytesToAddress($r.Serialize())"
+] := rfl
+
+/-- id.go: NewIDFromPubkey is what `Model/Bls14Verify.lean` / `Bls14G1.lean` transcribes. -/
+theorem shape_newIDFromPubkey : Shape.newIDFromPubkey = [
+  "return newIDFromBigInt(new(big.Int).SetBytes(sha3.Sum256($0.Serialize())[:]))"
+] := rfl
+
+/-- common/types.go: Address.SetBytes is what `Model/Bls14Verify.lean` / `Bls14G1.lean` transcribes. -/
+theorem shape_addressSetBytes : Shape.addressSetBytes = [
+  "unrecognised-if: if len(b) > len(a) { b = b[len(b)-AddressLength:] }",
+  "do copy($r[:], $0[:])"
+] := rfl
+
+/-- common/utils.go: ShortHex12 is what `Model/Bls14Verify.lean` / `Bls14G1.lean` transcribes. -/
+theorem shape_shortHex12 : Shape.shortHex12 = [
+  "guard[len($0) < 12] -> return $0",
+  "return $0[0:6] + \"-\" + $0[len($0) - 6:]"
+] := rfl
+
+/-- bn_curve.go: BnInt.mod is what `Model/Bls14Verify.lean` / `Bls14G1.lean` transcribes. -/
+theorem shape_bnIntMod : Shape.bnIntMod = [
+  "do $r.v.Mod(&$r.v, bn_curve.Order)",
+  "return nil"
+] := rfl
+
+/-- bn_curve.go: BnInt.add is what `Model/Bls14Verify.lean` / `Bls14G1.lean` transcribes. -/
+theorem shape_bnIntAdd : Shape.bnIntAdd = [
+  "do $r.v.Add(&$r.v, &$0.v)",
+  "return nil"
+] := rfl
+
 /-- groupsig/*.go: everything used from other go-rangers packages (no chain configuration, no fork flags, no block height) is what `Model/Bls14Verify.lean` / `Bls14G1.lean` transcribes. -/
 theorem shape_groupsigExternalUses : Shape.groupsigExternalUses = [
   "src/common.Address",
